@@ -15,7 +15,7 @@ import importlib
 import z3
 
 from vlib import core, pyvc
-from vlib.pyvc import SBool, SInt, SRec
+from vlib.pyvc import GObj, SBool, SInt, SRec
 
 AC = "compiler.front_end.attribute_checker"
 
@@ -234,3 +234,279 @@ def target_gather_defaults():
 TARGETS = {"gather_defaults": target_gather_defaults, "fixed_size": target_fixed_size, "size_attributes": target_size_attributes, "enum_attributes": target_enum_attributes, "enum_width": target_enum_width}
 FUNCTIONS = ["(attribute_util) gather_default_attributes", "_fixed_size_of_struct_or_bits", "_verify_size_attributes_on_structure", "_add_missing_size_attributes_on_structure",
              "_add_missing_width_and_sign_attributes_on_enum", "_verify_width_attribute_on_enum"]
+
+
+def target_check_attributes():
+    """attribute_util._check_attributes (C14: "attributes only where, how often and with the values allowed"): for every list
+    of up to three attributes drawn from {a, $default a, b, (cpp) a}, both back ends being checked (None / "cpp") and
+    specs that allow `a` only or `a` and `$default a`:
+
+        attributes of another back end are ignored (and do not count as a first occurrence)
+        a second (name, is_default) pair  ->  exactly one Duplicate error with a note at the first; the value is not checked again
+        a pair the context does not allow ->  exactly one "Unknown attribute" / "may not be defaulted" error at the name
+        an allowed first occurrence       ->  exactly the errors of the attribute's value checker, nothing else
+    in list order."""
+    import itertools
+    au = importlib.import_module("compiler.util.attribute_util")
+    ir_data_utils = importlib.import_module("compiler.util.ir_data_utils")
+    error = importlib.import_module("compiler.util.error")
+    eng = pyvc.Engine()
+    eng.identity(ir_data_utils.reader)
+    eng.contract(error.error, lambda interp, f, loc, msg: ("ERROR", loc, msg), "error.error")
+    eng.contract(error.note, lambda interp, f, loc, msg: ("NOTE", loc, msg), "error.note")
+    KINDS = {"a": ("a", False, ""), "da": ("a", True, ""), "b": ("b", False, ""), "cpp-a": ("a", False, "cpp")}
+
+    def mk(kind, idx):
+        name, dflt, be = KINDS[kind]
+        return SRec("Attribute", {"name": SRec("Word", {"text": name, "source_location": ("LOC", "name", idx)}), "is_default": dflt, "back_end": SRec("Word", {"text": be}),
+                                  "source_location": ("LOC", "attr", idx), "ghost_idx": idx})
+    obs_all, n = [], 0
+    lists = [t for k in (0, 1, 2, 3) for t in itertools.product(sorted(KINDS), repeat=k)]
+    for lst in lists:
+        for back_end in (None, "cpp"):
+            for allow_default in (False, True):
+                def harness(c, lst=lst, back_end=back_end, allow_default=allow_default):
+                    attrs = [mk(k, i) for i, k in enumerate(lst)]
+                    specs = {("a", False): "SPEC"}
+                    if allow_default:
+                        specs[("a", True)] = "SPEC"
+                    checked = []
+                    types = {"a": lambda interp_attr, src=None: None}
+                    vals = GObj("types")
+                    # the value checker of `a`: reports one error for attributes at odd positions (so that its output is observable)
+                    def checker(interp, obj, attr, src):
+                        checked.append(attr.f["ghost_idx"])
+                        return [[("VALUE-ERROR", attr.f["ghost_idx"])]] if attr.f["ghost_idx"] % 2 else []
+                    types = {"a": pyvc._BoundGhost(vals, "check_a", checker), "b": pyvc._BoundGhost(vals, "check_b", checker)}
+                    c.covered = True
+                    st, got = pyvc.run_body(c, "compiler.util.attribute_util._check_attributes", [attrs, types, back_end, specs, "struct 'Foo'", "m.emb"])
+                    want, seen, want_checked = [], {}, []
+                    for i, k in enumerate(lst):
+                        name, dflt, be = KINDS[k]
+                        if (be or None) != back_end:
+                            continue
+                        shown = ("(%s) %s" % (be, name)) if be else name
+                        if (name, dflt) in seen:
+                            want.append([("ERROR", ("LOC", "attr", i), "Duplicate attribute '%s'." % shown), ("NOTE", ("LOC", "attr", seen[(name, dflt)]), "Original attribute")])
+                            continue
+                        seen[(name, dflt)] = i
+                        if (name, dflt) not in specs:
+                            msg = ("Attribute '%s' may not be defaulted on struct 'Foo'." if dflt else "Unknown attribute '%s' on struct 'Foo'.") % shown
+                            want.append([("ERROR", ("LOC", "name", i), msg)])
+                        else:
+                            want_checked.append(i)
+                            if i % 2:
+                                want.append([("VALUE-ERROR", i)])
+                    c.oblige("errors-are-exactly-the-documented-ones-in-order", got == want, detail="%r / back_end=%r: %r, expected %r" % (lst, back_end, got, want))
+                    c.oblige("value-checker-runs-exactly-on-allowed-first-occurrences", checked == want_checked, detail="%r vs %r" % (checked, want_checked))
+                obs_all.extend(pyvc.collect(eng.explore(harness), "_check_attributes"))
+                n += 1
+    bad = [o for o in obs_all if o.verdict != core.PROVED]
+    if bad:
+        return bad[:6], n
+    return [core.Obligation("_check_attributes." + nm, core.PROVED, "syntactic", 0.0, detail="%d (attribute list, back end, allowed set) cases" % n)
+            for nm in ("errors-are-exactly-the-documented-ones-in-order", "value-checker-runs-exactly-on-allowed-first-occurrences")], n
+
+
+TARGETS["check_attributes"] = target_check_attributes
+
+
+def target_byte_order():
+    """attribute_checker: _field_needs_byte_order, _field_may_have_null_byte_order, _add_missing_byte_order_attribute_on_field,
+    _verify_byte_order_attribute_on_field (C14: "byte order present wherever it matters"), over a ghost field:
+    virtual or physical, (base) type bit- or byte-oriented inside a bit- or byte-oriented definition, size constant
+    (symbolic value) or not, base type of symbolic / unknown fixed size, attribute absent / LittleEndian / Null,
+    $default byte_order present or not:
+
+        needs     := physical and the unit of its base type differs from the unit of the enclosing definition
+        may_null  := the size is the constant 1, or the base type's fixed size equals the enclosing unit
+        add       : needs and no attribute -> the default's attribute if there is one, else a "Null" attribute iff may_null, else nothing
+        verify    : attribute and not needs -> "not allowed";  no attribute and needs -> "required";
+                    attribute "Null" and not may_null -> "may only be 'Null' for one-byte fields";  nothing else"""
+    ac = importlib.import_module("compiler.front_end.attribute_checker")
+    ir_util = importlib.import_module("compiler.util.ir_util")
+    ir_data = importlib.import_module("compiler.util.ir_data")
+    error = importlib.import_module("compiler.util.error")
+    attributes = importlib.import_module("compiler.front_end.attributes")
+    AU = ir_data.AddressableUnit
+    eng = pyvc.Engine()
+    eng.contract(error.error, lambda interp, f, loc, msg: ("ERROR", loc, msg), "error.error")
+    eng.contract(ir_util.field_is_virtual, lambda interp, f: f.f["ghost_virtual"], "field_is_virtual")
+    eng.contract(ir_util.get_base_type, lambda interp, t: t.f["ghost_base"], "get_base_type")
+    eng.contract(ir_util.find_object, lambda interp, cn, ir: cn.f["ghost_object"], "find_object")
+    eng.contract(ir_util.is_constant, lambda interp, e: e.f["ghost_constant"], "is_constant")
+    eng.contract(ir_util.constant_value, lambda interp, e, bindings=None: e.f["ghost_cv"], "constant_value")
+    eng.contract(ac._construct_string_attribute, lambda interp, name, value, loc: ("CONSTRUCTED", name, value, loc), "_construct_string_attribute")
+
+    def harness(c):
+        fn = c.choice("function", ["add", "verify"])
+        virtual = c.choice("field", ["physical", "virtual"]) == "virtual"
+        outer, inner = c.choice("enclosing-unit", ["BYTE", "BIT"]), c.choice("type-unit", ["BYTE", "BIT"])
+        size_const = c.choice("size", ["constant", "run-time"]) == "constant"
+        fixed_known = c.choice("type-fixed-size", ["known", "unknown"]) == "known"
+        attr_kind = c.choice("attribute", ["none", "LittleEndian", "Null"])
+        size, fixed = z3.Int("field_size"), z3.Int("type_fixed_size")
+        c.assume(z3.And(size >= 0, fixed >= 0))
+        eng.contract(ir_util.fixed_size_of_type_in_bits, lambda interp, t, ir: SInt(fixed) if fixed_known else None, "fixed_size_of_type_in_bits")
+        attr = None if attr_kind == "none" else SRec("Attribute", {"source_location": ("LOC", "attr"), "string_constant": SRec("String", {"text": attr_kind})})
+        eng.contract(ir_util.get_attribute, lambda interp, attrs, name: attr if name == attributes.BYTE_ORDER else None, "get_attribute")
+        tdef = SRec("TypeDefinition", {"addressable_unit": getattr(AU, inner)})
+        base = SRec("Type", {"atomic_type": SRec("AtomicType", {"reference": SRec("Reference", {"canonical_name": SRec("CanonicalName", {"ghost_object": tdef})})})})
+        alist = []
+        field = SRec("Field", {"ghost_virtual": virtual, "type": SRec("Type", {"ghost_base": base}), "attribute": alist, "source_location": ("LOC", "field"),
+                               "location": SRec("FieldLocation", {"size": SRec("Expression", {"ghost_constant": size_const, "ghost_cv": SInt(size)})})})
+        enclosing = SRec("TypeDefinition", {"addressable_unit": getattr(AU, outer)})
+        needs = (not virtual) and outer != inner
+        unit = 8 if outer == "BYTE" else 1
+        may_null = z3.Or(z3.And(z3.BoolVal(size_const), size == 1), z3.And(z3.BoolVal(fixed_known), fixed == unit))
+        c.covered = True
+        if fn == "add":
+            has_default = c.choice("default-byte_order", ["no", "yes"]) == "yes"
+            defaults = {attributes.BYTE_ORDER: "DEFAULT-ATTR"} if has_default else {}
+            pyvc.run_body(c, "compiler.front_end.attribute_checker._add_missing_byte_order_attribute_on_field", [field, enclosing, "IR", defaults])
+            if not needs or attr is not None:
+                c.oblige("add:nothing-added-when-not-needed-or-already-present", alist == [], detail=repr(alist))
+            elif has_default:
+                c.oblige("add:the-default-is-used", alist == ["DEFAULT-ATTR"], detail=repr(alist))
+            elif alist:
+                c.oblige("add:Null-only-when-byte-order-cannot-matter", z3.And(may_null, z3.BoolVal(alist == [("CONSTRUCTED", attributes.BYTE_ORDER, "Null", ("LOC", "field"))])), detail=repr(alist))
+            else:
+                c.oblige("add:nothing-added-only-when-byte-order-matters", z3.Not(may_null))
+            return
+        errors = []
+        pyvc.run_body(c, "compiler.front_end.attribute_checker._verify_byte_order_attribute_on_field", [field, enclosing, "m.emb", "IR", errors])
+        msgs = [e[0][2] for e in errors if len(e) == 1 and e[0][0] == "ERROR"]
+        c.oblige("verify:only-single-message-errors", len(msgs) == len(errors))
+        want_not_allowed = attr is not None and not needs
+        want_required = attr is None and needs
+        c.oblige("verify:not-allowed-iff-present-on-an-independent-field", any("not allowed" in m for m in msgs) == want_not_allowed, detail=repr(msgs))
+        c.oblige("verify:required-iff-missing-on-a-dependent-field", any("required" in m for m in msgs) == want_required, detail=repr(msgs))
+        null_err = any("may only be 'Null'" in m for m in msgs)
+        if attr_kind == "Null":
+            c.oblige("verify:Null-rejected-iff-byte-order-matters", (z3.Not(may_null) if null_err else may_null))
+        else:
+            c.oblige("verify:no-Null-error-without-a-Null-attribute", not null_err)
+        c.oblige("verify:no-other-errors", len(msgs) == int(want_not_allowed) + int(want_required) + int(null_err), detail=repr(msgs))
+    paths = eng.explore(harness)
+    return pyvc.collect(paths, "byte_order"), sum(1 for p in paths if p.covered)
+
+
+TARGETS["byte_order"] = target_byte_order
+
+
+def target_external_and_requires():
+    """attribute_checker: addressable_unit_size on externals and [requires] on fields (C14).
+       _add_addressable_unit_to_external + _verify_addressable_unit_attribute_on_external, for a symbolic attribute value
+       (or none): unit BIT iff 1, BYTE iff 8, untouched otherwise; exactly one error iff the attribute is missing or not in {1, 8}.
+       _verify_requires_attribute_on_field: no attribute -> nothing; array-typed physical field -> one error with a note;
+       otherwise one error iff the field's expression type is not integer / enumeration / boolean (virtual: type of its
+       definition; physical: the expression type of its physical type)."""
+    ac = importlib.import_module("compiler.front_end.attribute_checker")
+    tc = importlib.import_module("compiler.front_end.type_check")
+    ir_util = importlib.import_module("compiler.util.ir_util")
+    ir_data = importlib.import_module("compiler.util.ir_data")
+    error = importlib.import_module("compiler.util.error")
+    attributes = importlib.import_module("compiler.front_end.attributes")
+    AU = ir_data.AddressableUnit
+    eng = pyvc.Engine()
+    eng.contract(error.error, lambda interp, f, loc, msg: ("ERROR", loc, msg), "error.error")
+    eng.contract(error.note, lambda interp, f, loc, msg: ("NOTE", loc, msg), "error.note")
+    eng.contract(ir_util.field_is_virtual, lambda interp, f: f.f["ghost_virtual"], "field_is_virtual")
+    eng.contract(ir_util.find_object, lambda interp, ref, ir: ref.f["ghost_object"], "find_object")
+
+    def harness(c):
+        what = c.choice("function", ["external", "requires"])
+        c.covered = True
+        errors = []
+        if what == "external":
+            present = c.choice("addressable_unit_size", ["present", "absent"]) == "present"
+            v = z3.Int("addressable_unit_size")
+            eng.contract(ir_util.get_integer_attribute, lambda interp, attrs, name, default_value=None: SInt(v) if present else None, "get_integer_attribute")
+            td = SRec("TypeDefinition", {"attribute": [], "addressable_unit": "UNSET", "source_location": ("LOC", "ext")})
+            pyvc.run_body(c, "compiler.front_end.attribute_checker._add_addressable_unit_to_external", ["EXTERNAL", td])
+            unit = td.f["addressable_unit"]
+            if present:
+                c.oblige("external:unit-is-BIT-for-1-BYTE-for-8-untouched-otherwise",
+                         z3.And(z3.BoolVal(unit is AU.BIT) == (v == 1), z3.BoolVal(unit is AU.BYTE) == (v == 8), z3.BoolVal(unit == "UNSET") == z3.And(v != 1, v != 8)), detail=repr(unit))
+            else:
+                c.oblige("external:no-attribute-leaves-the-unit-unset", unit == "UNSET", detail=repr(unit))
+            pyvc.run_body(c, "compiler.front_end.attribute_checker._verify_addressable_unit_attribute_on_external", ["EXTERNAL", td, "m.emb", errors])
+            ok_shape = all(len(e) == 1 and e[0][0] == "ERROR" and e[0][1] == ("LOC", "ext") for e in errors) and len(errors) <= 1
+            c.oblige("external:at-most-one-error-at-the-definition", ok_shape, detail=repr(errors)[:200])
+            if present:
+                c.oblige("external:error-iff-the-value-is-neither-1-nor-8", z3.BoolVal(len(errors) == 1) == z3.And(v != 1, v != 8))
+            else:
+                c.oblige("external:missing-attribute-is-an-error", len(errors) == 1 and "Expected" in errors[0][0][2], detail=repr(errors)[:200])
+            return
+        has = c.choice("requires-attribute", ["present", "absent"]) == "present"
+        shape = c.choice("field", ["virtual", "physical-array", "physical-atomic"])
+        ty = c.choice("expression-type", ["integer", "enumeration", "boolean", "opaque"])
+        attr = SRec("Attribute", {"source_location": ("LOC", "requires")}) if has else None
+        eng.contract(ir_util.get_attribute, lambda interp, attrs, name: attr if name == attributes.REQUIRES else None, "get_attribute")
+        eng.contract(tc.unbounded_expression_type_for_physical_type, lambda interp, td: SRec("ExpressionType", {"which_type": ty}), "unbounded_expression_type_for_physical_type")
+        f = {"ghost_virtual": shape == "virtual", "attribute": [], "read_transform": SRec("Expression", {"type": SRec("ExpressionType", {"which_type": ty})})}
+        tf = {"source_location": ("LOC", "type")}
+        if shape == "physical-atomic":
+            tf["atomic_type"] = SRec("AtomicType", {"reference": SRec("Reference", {"ghost_object": SRec("TypeDefinition", {})})})
+        f["type"] = SRec("Type", tf, defaults={"has:atomic_type": shape == "physical-atomic"})
+        pyvc.run_body(c, "compiler.front_end.attribute_checker._verify_requires_attribute_on_field", [SRec("Field", f), "m.emb", "IR", errors])
+        if not has:
+            c.oblige("requires:nothing-without-the-attribute", errors == [])
+        elif shape == "physical-array":
+            c.oblige("requires:array-field-gives-one-error-with-a-note", len(errors) == 1 and len(errors[0]) == 2 and errors[0][0][1] == ("LOC", "requires") and "not arrays" in errors[0][0][2]
+                     and errors[0][1] == ("NOTE", ("LOC", "type"), "Field type."), detail=repr(errors)[:300])
+        else:
+            bad = ty == "opaque"
+            c.oblige("requires:error-iff-the-field-is-not-integer-enumeration-or-boolean",
+                     (len(errors) == 1 and len(errors[0]) == 1 and errors[0][0][1] == ("LOC", "requires")) if bad else errors == [], detail=repr(errors)[:300])
+    paths = eng.explore(harness)
+    return pyvc.collect(paths, "external+requires"), sum(1 for p in paths if p.covered)
+
+
+TARGETS["external_and_requires"] = target_external_and_requires
+
+
+def target_value_checkers():
+    """attribute_util._is_constant_boolean / _is_boolean / _is_constant_integer / _is_string (C14: attributes "with the
+    values allowed"): each returns exactly one error, at the value, naming the attribute and the expected kind, iff the
+    attribute's value is not of that kind (a non-constant integer gets the "must have a constant value" message), and [] otherwise."""
+    au = importlib.import_module("compiler.util.attribute_util")
+    ir_util = importlib.import_module("compiler.util.ir_util")
+    ir_data_utils = importlib.import_module("compiler.util.ir_data_utils")
+    error = importlib.import_module("compiler.util.error")
+    eng = pyvc.Engine()
+    eng.identity(ir_data_utils.reader)
+    eng.contract(error.error, lambda interp, f, loc, msg: ("ERROR", loc, msg), "error.error")
+    eng.contract(ir_util.is_constant, lambda interp, e: e.f["ghost_constant"], "is_constant")
+
+    def harness(c):
+        fn = c.choice("checker", ["_is_constant_boolean", "_is_boolean", "_is_constant_integer", "_is_string"])
+        val = c.choice("value", ["true", "boolean-expression", "7", "integer-expression", "string", "enum-value"])
+        be = c.choice("qualifier", ["", "cpp"])
+        which = {"true": "boolean", "boolean-expression": "boolean", "7": "integer", "integer-expression": "integer", "enum-value": "enumeration"}.get(val)
+        vf = {"source_location": ("LOC", "value")}
+        if val == "string":
+            vf["string_constant"] = SRec("String", {"text": "s"})
+        else:
+            bt = {"value": True} if val == "true" else {}
+            vf["expression"] = SRec("Expression", {"ghost_constant": val in ("true", "7", "enum-value"),
+                                                   "type": SRec("ExpressionType", {"which_type": which, "boolean": SRec("BooleanType", bt, defaults={"has:value": val == "true"})})})
+        value = SRec("AttributeValue", vf, defaults={"has:expression": val != "string", "has:string_constant": val == "string",
+                                                    "expression": lambda rec: SRec("Expression", {"ghost_constant": False, "type": SRec("ExpressionType", {"which_type": None, "boolean": SRec("BooleanType", {}, defaults={"has:value": False})})})})
+        attr = SRec("Attribute", {"name": SRec("Word", {"text": "attr"}), "back_end": SRec("Word", {"text": be}), "value": value})
+        c.covered = True
+        st, got = pyvc.run_body(c, "compiler.util.attribute_util." + fn, [attr, "m.emb"])
+        good = {"_is_constant_boolean": val == "true", "_is_boolean": val in ("true", "boolean-expression"), "_is_constant_integer": val == "7", "_is_string": val == "string"}[fn]
+        shown = "(cpp) attr" if be else "attr"
+        if good:
+            c.oblige("accepted-value-gives-no-error", got == [], detail=repr(got)[:200])
+        else:
+            ok = isinstance(got, list) and len(got) == 1 and len(got[0]) == 1 and got[0][0][0] == "ERROR" and got[0][0][1] == ("LOC", "value") and shown in got[0][0][2]
+            c.oblige("wrong-kind-of-value-gives-one-error-at-the-value-naming-the-attribute", ok, detail=repr(got)[:300])
+            if ok and fn == "_is_constant_integer" and val == "integer-expression":
+                c.oblige("non-constant-integer-gets-the-constant-message", "constant" in got[0][0][2], detail=got[0][0][2])
+    paths = eng.explore(harness)
+    return pyvc.collect(paths, "attribute-value-checkers"), sum(1 for p in paths if p.covered)
+
+
+TARGETS["value_checkers"] = target_value_checkers
